@@ -21,6 +21,7 @@ func init() {
 			"C04.4 (=C02.4) peer traffic is written only to the owner's a.fiveTuple.SrcAddr over a.TurnSocket; " +
 			"C04.5 the insert into Manager.allocations is dominated by GetAllocation(fiveTuple)==nil, and the Allocate handler calls CreateAllocation only when GetAllocation(request tuple)==nil; " +
 			"C04.7 (=C16.2) a ConnectionBind naming another user's connection id has no effect on that connection: the single-use flag is consumed only after the user test; " +
+			"C04.8 every table shared by the clients of a listener (map fields of Manager, Server, Request) is keyed by a type that is or contains the 5-tuple fingerprint; " +
 			"C04.6 package server obtains *Allocation values only from the keyed lookups and CreateAllocation.",
 		NotCovered: "interleavings (the check-then-insert window between GetAllocation and the insert); cross-talk through operator callbacks.",
 		Run:        runC04,
@@ -35,6 +36,7 @@ func runC04(c *Ctx) {
 	ruleUniqueTuple(c, "C04.5")
 	ruleAllocSources(c, "C04.6")
 	ruleSingleUseOwner(c, "C04.7")
+	ruleSharedStateKeyedByTuple(c, "C04.8")
 }
 
 func ruleAllocTableKeys(c *Ctx, rule string) {
@@ -549,3 +551,61 @@ func (w *World) allocRoot(v ssa.Value) ssa.Value {
 }
 
 var _ = types.Identical
+
+// ruleSharedStateKeyedByTuple (C04.8): state that outlives one request and is shared by all
+// clients of a listener lives in the Manager, the Server and the per-request context built
+// from them. A table there whose key is not (or does not contain) the 5-tuple fingerprint is
+// indexed by something a client chooses — a transaction id, a username, a port — so a request
+// on one 5-tuple can read or hit an entry made by another.
+func ruleSharedStateKeyedByTuple(c *Ctx, rule string) {
+	w := c.W
+	c.Rule(rule, "shared tables are keyed by the 5-tuple: every map-typed field of allocation.Manager, turn.Server and server.Request has a key type that is, or contains, allocation.FiveTupleFingerprint", 1)
+	fpT := w.Named("allocation", "FiveTupleFingerprint")
+	var contains func(t types.Type, depth int) bool
+	contains = func(t types.Type, depth int) bool {
+		if depth > 4 {
+			return false
+		}
+		if types.Identical(t, fpT) {
+			return true
+		}
+		switch u := t.Underlying().(type) {
+		case *types.Struct:
+			for i := 0; i < u.NumFields(); i++ {
+				if contains(u.Field(i).Type(), depth+1) {
+					return true
+				}
+			}
+		case *types.Array:
+			return contains(u.Elem(), depth+1)
+		case *types.Pointer:
+			return contains(u.Elem(), depth+1)
+		}
+		return false
+	}
+	n := 0
+	for _, owner := range [][2]string{{"allocation", "Manager"}, {"turn", "Server"}, {"server", "Request"}} {
+		st, ok := w.Named(owner[0], owner[1]).Underlying().(*types.Struct)
+		if !ok {
+			continue
+		}
+		c.Anchor(rule, owner[0]+"."+owner[1])
+		for i := 0; i < st.NumFields(); i++ {
+			f := st.Field(i)
+			m, isMap := f.Type().Underlying().(*types.Map)
+			if !isMap {
+				continue
+			}
+			n++
+			pos := w.pos(f.Pos())
+			if contains(m.Key(), 0) {
+				c.OK(rule, owner[0]+"."+owner[1], "table "+f.Name(), pos, "keyed by "+m.Key().String())
+			} else {
+				c.Bad(rule, owner[0]+"."+owner[1], "table "+f.Name(), pos, "the table "+owner[1]+"."+f.Name()+" is shared by every client of the listener but keyed by "+m.Key().String()+", which does not contain the 5-tuple: a request on one 5-tuple can be answered from, or act on, an entry made by another")
+			}
+		}
+	}
+	if n == 0 {
+		c.Bad(rule, "-", "tables", "-", "no shared table found: anchor gone")
+	}
+}
